@@ -128,3 +128,20 @@ Proof.
   - apply short_writer_ok.
 Qed.
 Print Assumptions fault_enumeration_on_lengths.
+
+(* the third fault style of the correspondence: a destination that accepts the
+   call storing its k-th byte in full and reports the failure together with
+   the complete count.  It obeys io.Writer's contract (so write_count_exact,
+   first_error_returned and cff_first_error_returned apply to it), and the
+   length-only loop enumerates it faithfully. *)
+Theorem eager_fault_enumeration_on_lengths : forall (k : nat) (p : plan),
+  sim (M_write_loop (eager_writer k) p)
+      (M_write_loop_len (eager_lwriter (N.of_nat k)) (N.of_nat (length (p_header p)))
+                        (map (fun tb : N * list N => N.of_nat (length (snd tb))) (p_bodies p))) /\
+  writer_ok (eager_writer k).
+Proof.
+  intros k p. split.
+  - apply write_loop_sim. apply eager_writer_lift.
+  - apply eager_writer_ok.
+Qed.
+Print Assumptions eager_fault_enumeration_on_lengths.
